@@ -251,6 +251,8 @@ def tell_term(cfg, obs, g):
     if alg in ("NSDE", "GA", "EA"):
         return "match mu_plus_lambda (N:=Fn) %s %s %s %s %d %s with\n  | Ok ((s, a), rest) => %s\n  | Err _ => false end" % (
             sk, constr, minds(obs, G["pre"]), minds(obs, G["infills"]), n, E, check)
+    if G["cands"] is None or any(i not in pos for i in G["cands"]):
+        return "false"          # the survival operator's do() was not called with members of (population + offspring): nothing the model could agree with
     cands_exp = cnl([pos[i] for i in G["cands"]])
     return ("nlist_same (gde3_candidates (N:=Fn) %s %s) %s &&\n  match gde3_step (N:=Fn) %s %s %s %s %d %s with\n  | Ok ((s, a), rest) => %s\n  | Err _ => false end" % (
         minds(obs, G["pre"]), minds(obs, G["infills"]), cands_exp, sk, constr, minds(obs, G["pre"]), minds(obs, G["infills"]), n, E, check))
